@@ -1,0 +1,16 @@
+//go:build verif
+
+package pppoe
+
+// VerifFSMGate, when set by the verification harness, is called at the very top of the
+// restart-timer expiry handler of the LCP / IPCP / IPV6CP automata, before the automaton's
+// lock is taken. The harness uses it to park the timer goroutine there and to release it
+// later, which makes "the timer fired but has not been handled yet" a reproducible state.
+// point is "lcp.timeout", "ipcp.timeout" or "ipv6cp.timeout"; machine is the automaton.
+var VerifFSMGate func(point string, machine any)
+
+func verifGate(point string, machine any) {
+	if f := VerifFSMGate; f != nil {
+		f(point, machine)
+	}
+}
